@@ -307,6 +307,42 @@ func (c *chChecker) analyse(fn *ssa.Function, root ssa.Value, nilness int, top b
 						if opaque != "" {
 							report("escape", ins, "channel parameter in a deferred call: "+opaque)
 						}
+						if s.nilness == 0 && len(rs) > 0 {
+							// `defer func() { if ch != nil { close(ch) } }()`: whether the deferred function closes depends on
+							// the nil-ness of the channel, which is fixed for the whole call: follow both cases separately
+							sNil, sNon := s.clone(), s.clone()
+							sNil.nilness, sNon.nilness = 1, 2
+							outs = nil
+							for _, sc := range []chState{sNil, sNon} {
+								for _, rc := range rs {
+									sub := c.analyse(rc.callee, rc.root, sc.nilness, false)
+									for _, v := range sub.viol {
+										report(v.Kind, ins, "in deferred "+w.FuncName(rc.callee)+": "+v.Msg)
+									}
+									allClose := len(sub.outcomes) > 0
+									for _, o := range sub.outcomes {
+										if !o.closed {
+											allClose = false
+										}
+										if o.sent {
+											report("lastsent", ins, "deferred "+w.FuncName(rc.callee)+" sends on the channel after the result has been computed")
+										}
+									}
+									if allClose {
+										sc.deferred = true
+									} else {
+										for _, o := range sub.outcomes {
+											if o.closed {
+												report("close", ins, "deferred "+w.FuncName(rc.callee)+" closes the channel on some of its paths only")
+											}
+										}
+									}
+								}
+								outs = append(outs, sc)
+							}
+							next = append(next, outs...)
+							continue
+						}
 						for _, rc := range rs {
 							// the deferred callee runs at exit: its sends happen after everything else; treat a close
 							// there as the deferred close and any send there as a violation of the ordering we can check
